@@ -211,7 +211,7 @@ def unit(p, item, tier, seed):
             check(p, name, c)
             history_check(p, name, rebuild(lemma_circuits_by_name(name)))
             history_replace_inputs(p, name, rebuild(lemma_circuits_by_name(name)))
-        for name, c in circgen.feature_circuits():
+        for name, c in circgen.feature_circuits() + circgen.large_circuits(seed):
             check(p, "feature:" + name, c)
         # canary: a wrong rewrite (GT -> AND without the NOT) must be refuted by the same query
         c = circgen.build(["a", "b"], [("g", G.GT, ("a", "b"))], ["g"])
